@@ -245,6 +245,9 @@ pub struct Run14 {
     /// the executor's state mutex is held for good: a lock-order deadlock between a session start
     /// and a cross-session send
     pub executor_stuck: bool,
+    /// every child that announced its last message had returned from `interpret` before the parent
+    /// was cancelled (otherwise its done.invoke may legitimately still be on its way)
+    pub last_senders_finished: bool,
 }
 
 fn unquote(s: &str) -> String {
@@ -399,6 +402,7 @@ pub fn run_impl(c: &Case14) -> Result<Run14, String> {
     }
     // children that announced their last message are given time to finish (their done.invoke is then
     // in the parent's queue before the cancel event): makes oracle O6b exact on a loaded machine
+    let mut last_senders_finished = true;
     if !executor_stuck {
         let w = Instant::now();
         loop {
@@ -414,7 +418,12 @@ pub fn run_impl(c: &Case14) -> Result<Run14, String> {
             let pending = lasts.iter().any(|sid| {
                 kids.iter().position(|k| k.1 == *sid).map(|k| !child_logs.get(k).map(|l| l.lock().unwrap_or_else(|e| e.into_inner()).iter().any(|x| x == "m< interpret")).unwrap_or(true)).unwrap_or(false)
             });
-            if !pending || w.elapsed() > Duration::from_secs(3) || handle.is_finished() {
+            if !pending || handle.is_finished() {
+                break;
+            }
+            if w.elapsed() > Duration::from_secs(10) {
+                // an overloaded machine: the clause "done.invoke follows the last message" is not judged
+                last_senders_finished = false;
                 break;
             }
             std::thread::sleep(Duration::from_millis(1));
@@ -425,7 +434,7 @@ pub fn run_impl(c: &Case14) -> Result<Run14, String> {
         crate::vdm::unregister_log(&vid);
         flogs.lock().unwrap().truncate(base);
         let trace = log.lock().unwrap_or_else(|e| e.into_inner()).clone();
-        return Ok(Run14 { doc, trace, panicked: false, timed_out: true, children_alive: vec![], child_logs: vec![], executor_stuck: true });
+        return Ok(Run14 { doc, trace, panicked: false, timed_out: true, children_alive: vec![], child_logs: vec![], executor_stuck: true, last_senders_finished: false });
     }
     let _ = session.sender.send(Box::new(Event::new_simple(EVENT_CANCEL_SESSION)));
     let mut timed_out = !quiet && !handle.is_finished();
@@ -465,7 +474,7 @@ pub fn run_impl(c: &Case14) -> Result<Run14, String> {
     let _ = (parent_sid, start);
     crate::vdm::unregister_log(&vid);
     let trace = log.lock().unwrap_or_else(|e| e.into_inner()).clone();
-    Ok(Run14 { doc, trace, panicked, timed_out, children_alive: alive, child_logs, executor_stuck: false })
+    Ok(Run14 { doc, trace, panicked, timed_out, children_alive: alive, child_logs, executor_stuck: false, last_senders_finished })
 }
 
 // ------------------------------------------------------------------ trace → events
@@ -696,7 +705,7 @@ pub struct Judged {
     pub stats: BTreeMap<String, u64>,
 }
 
-pub fn judge(doc: &str, evs: &[Ev], children_alive: &[u32]) -> Judged {
+pub fn judge(doc: &str, evs: &[Ev], children_alive: &[u32], judge_done_after_last: bool) -> Judged {
     let inv = invokes_of(doc);
     let mut fails: Vec<(String, String)> = vec![];
     let mut stats: BTreeMap<String, u64> = BTreeMap::new();
@@ -938,6 +947,9 @@ pub fn judge(doc: &str, evs: &[Ev], children_alive: &[u32]) -> Judged {
         })
         .collect();
     for sid in last_from {
+        if !judge_done_after_last {
+            break;
+        }
         if let Some(x) = insts.iter().find(|x| x.sid == sid) {
             if !x.done {
                 fails.push(("C14:done.invoke-missing".to_string(), format!("invocation {} (session {}) reached its final state (k.last seen) but no done.invoke arrived", x.id, x.sid)));
@@ -1096,7 +1108,7 @@ pub fn check_case(c: &Case14, model: &mut Model, rep: &mut Report) {
     if evs.iter().any(|e| matches!(e, Ev::Started(..))) {
         rep.nontrivial.insert(format!("{}|{:?}", c.xml, c.acts));
     }
-    let j = judge(&run.doc, &evs, &run.children_alive);
+    let j = judge(&run.doc, &evs, &run.children_alive, run.last_senders_finished);
     for (k, v) in &j.stats {
         rep.add(k, *v);
     }
